@@ -608,9 +608,11 @@ def main(argv):
         hints = [f.get("hint") for f in ctx.failures if f.get("hint")]
         try:
             found = mod.oracle(ctx, hints) if hasattr(mod, "oracle") else []
-            if any(h and "stress" in h for h in hints):
+            if any(h and ("stress" in h or (isinstance(h.get("case"), dict) and "q0" in h["case"])) for h in hints):
                 # call sequences (one-argument siblings, cached repeats) on which the solver's result stopped being a
-                # function of its arguments: replayed on the implementation against a fresh process / an uncached call
+                # function of its arguments: replayed on the implementation against a fresh process / an uncached call;
+                # and, for every solver request on which model and implementation disagree, the consistency probes that
+                # every solver-family property presupposes (slot = single-level request, presentation, purity)
                 import solvercorr
                 found = list(found) + solvercorr.stress_oracle(ctx, hints)
         except Exception as e:  # an oracle crash must not hide a failure
